@@ -357,6 +357,9 @@ class BPTC19696:
             is_reserved,
             is_hamming,
         ) in BPTC19696.INTERLEAVING_INDICES.items():
+            if row == 0:
+                # R(3) has no place in the table (row - 1 would address the last row), keep the received bit
+                continue
             bits[data_index if deinterleaved else interleave_index] = table[row - 1][
                 column
             ]
